@@ -521,7 +521,7 @@ def check_property(prop, tier, seed, replay=None):
     # ---- known findings
     kf = [k for k in load_known_findings() if k.get("property") == prop]
     for k in kf:
-        log("KNOWN-FINDING: property=%s %s" % (prop, k["text"].split(" ", 1)[1] if " " in k["text"] else k["text"]))
+        log("KNOWN-FINDING: %s" % (k["text"].split(" ", 1)[1] if " " in k["text"] else k["text"]))
 
     # ---- verdict
     status = 0
